@@ -4,6 +4,7 @@ import Corerad.Props.C02
 import Corerad.Props.C05
 import Corerad.Props.C06
 import Corerad.Props.C07
+import Corerad.Props.C09
 import Corerad.Props.C12
 import Corerad.Props.C13
 import Corerad.Props.C14
